@@ -1,4 +1,4 @@
 def run(ctx):
-    from . import collapse_proofs, factorize_proofs
+    from . import axes_proofs, collapse_proofs, factorize_proofs
 
-    return factorize_proofs.run(ctx, ["offset", "ravel2", "factorize_offset"]) + " " + collapse_proofs.run(ctx, "C08")
+    return factorize_proofs.run(ctx, ["offset", "ravel2", "factorize_offset"]) + " " + collapse_proofs.run(ctx, "C08") + " " + axes_proofs.run(ctx, "C08")
